@@ -252,6 +252,14 @@ func (p *Program) runJobsL(fns []*ssa.Function, lemmas []*Contract, cfg SolverCf
 		nq     string
 	}
 	var pfs []pf
+	// obligations of open known findings end undischarged on the unchanged tree: they say nothing about whether this
+	// run is on a broken tree and must not switch the others to the reduced budget
+	listed := map[string]bool{}
+	for _, f := range allFindings {
+		if f.Status == "open" {
+			listed[f.Obligation] = true
+		}
+	}
 	for i, j := range jobs {
 		for _, o := range todos[i] {
 			if o.Status == "proved" || (o.Status == "failed" && (o.Model != nil || o.Kind == "pre-sat")) {
@@ -260,8 +268,8 @@ func (p *Program) runJobsL(fns []*ssa.Function, lemmas []*Contract, cfg SolverCf
 			if o.Kind == "pre-sat" && o.Group != "" {
 				continue // reachability probe: only a quick `unsat` matters
 			}
-			if cfg.Quick[o.Name] {
-				o.Status = "unknown" // listed as undecided: the incremental stage was its one attempt
+			if cfg.Quick[o.Name] || listed[o.Name] {
+				o.Status = "unknown" // listed as undecided or as an open known finding: the incremental stage was its one attempt
 				continue
 			}
 			q := pf{j: j, o: o, script: buildSingle(j, o, cfg.TimeoutMs, true)}
@@ -286,14 +294,6 @@ func (p *Program) runJobsL(fns []*ssa.Function, lemmas []*Contract, cfg SolverCf
 	// minutes rather than in budget x number of broken obligations.
 	var bad int32
 	fullCfg := cfg
-	// obligations of open known findings end undischarged on the unchanged tree: they say nothing about whether this
-	// run is on a broken tree and must not switch the others to the reduced budget
-	listed := map[string]bool{}
-	for _, f := range allFindings {
-		if f.Status == "open" {
-			listed[f.Obligation] = true
-		}
-	}
 	for _, q := range pfs {
 		wg.Add(1)
 		go func(q pf) {
